@@ -5,10 +5,44 @@ use vstd::std_specs::hash::*;
 use std::collections::HashMap;
 use std::borrow::Borrow;
 use std::hash::Hash;
+use std::path::PathBuf;
 verus! {
 //@include specs/err.rs
 //@include specs/tok.rs
-pub struct BPETokenizerConfig;  // configuration record, never inspected by the units
+#[verifier::external_type_specification]
+#[verifier::external_body]
+pub struct ExPathBuf(std::path::PathBuf);
+#[derive(Debug)]
+pub struct RegexError;
+impl From<RegexError> for AnyhowError {
+    #[verifier::external_body]
+    fn from(e: RegexError) -> AnyhowError { AnyhowError }
+}
+impl Regex {
+    #[verifier::external_body]
+    pub fn new(p: &str) -> (r: Result<Regex, RegexError>) { unimplemented!() }
+}
+pub const SPLIT_WORD_WHITESPACE_PATTERN: &'static str = "";   // text::SPLIT_WORD_WHITESPACE_PATTERN (only handed to Regex::new)
+
+//@unit src/tokenization.rs struct BPETokenizerConfig
+//@rule derive_only(Debug)
+#[derive(Debug)]
+pub struct BPETokenizerConfig {
+    pub merge_file: PathBuf,
+    pub max_vocab_size: Option<usize>,
+    pub use_graphemes: bool,
+}
+//@end
+//@unit src/tokenization.rs struct SpecialConfig
+//@rule derive_only(Debug)
+#[derive(Debug)]
+pub struct SpecialConfig {
+    pub pad: String,
+    pub tokens: Vec<String>,
+    pub prefix: Vec<String>,
+    pub suffix: Vec<String>,
+}
+//@end
 
 //@unit src/tokenization.rs type MergeOps
 pub type MergeOps = HashMap<Vec<u8>, u32>;
@@ -48,6 +82,18 @@ impl BPETokenizer {
                 string_bytes(#[trigger] self.special().rev()[id]) != (#[trigger] self.table()[k])@
     }
 
+    /// everything in wf() that the constructor can establish (all but the configuration precondition)
+    pub open spec fn wf_built(&self) -> bool {
+        &&& self.table().len() >= 256
+        &&& self.table().len() == 256 + self.merges().len()
+        &&& forall|b: int| 0 <= b < 256 ==> (#[trigger] self.table()[b])@ == seq![b as u8]
+        &&& forall|key: Vec<u8>| #[trigger] self.merges().contains_key(key) ==>
+                256 + self.merges()[key] < self.table().len() && self.table()[256 + self.merges()[key]]@ == key@
+        &&& self.special().inverse()
+        &&& self.table().len() + self.special().fwd().len() <= u32::MAX
+        &&& forall|id: u32| #[trigger] self.special().rev().contains_key(id) <==>
+                self.table().len() <= id < self.table().len() + self.special().fwd().len()
+    }
     /// THE oracle: the token (byte string) of an id, for every u32.
     pub open spec fn vocab_at(&self, id: u32) -> Option<Seq<u8>> {
         if id < 256 { Some(seq![id as u8]) }
@@ -175,6 +221,125 @@ impl BPETokenizer {
                 Some(256 + *merge_id)
             }
         }
+    }
+//@end
+}
+
+// ---------------------------------------------------------------- the constructor establishes the invariant
+/// a well-formed merge table (the property's domain): ids are exactly 0..n-1, every entry has at least two bytes
+pub open spec fn has_id(m: Map<Vec<u8>, u32>, id: int) -> bool { exists|key: Vec<u8>| #[trigger] m.contains_key(key) && m[key] == id }
+pub open spec fn merges_wf(m: Map<Vec<u8>, u32>) -> bool {
+    &&& forall|key: Vec<u8>| #[trigger] m.contains_key(key) ==> m[key] < m.len() && key@.len() >= 2
+    &&& forall|id: int| 0 <= id < m.len() ==> #[trigger] has_id(m, id)
+    &&& forall|k1: Vec<u8>, k2: Vec<u8>| m.contains_key(k1) && m.contains_key(k2) && (m[k1] == m[k2] || k1@ == k2@) ==> k1 == k2
+}
+// R6 idioms of BPETokenizer::new
+/// `MergeOps::load(path)` (rmp_serde): domain assumption -- a loaded table is well formed
+#[verifier::external_body]
+fn vt_load_merges(p: &PathBuf) -> (r: VtResult<MergeOps>)
+    ensures r.is_ok() ==> merges_wf(r.unwrap()@) && 256 + r.unwrap()@.len() <= u32::MAX,   // domain: the ids fit u32
+{ unimplemented!() }
+/// `m.retain(|_, &mut id| id < limit)`: keeps exactly the entries with id < limit; a well-formed table stays well formed
+/// (ids 0..min(n, limit)-1: cardinality of a finite map restricted to an initial segment of its ids)
+#[verifier::external_body]
+fn vt_retain_below(m: &mut MergeOps, limit: u32)
+    ensures
+        forall|key: Vec<u8>| #[trigger] final(m)@.contains_key(key) <==> old(m)@.contains_key(key) && old(m)@[key] < limit,
+        forall|key: Vec<u8>| #[trigger] final(m)@.contains_key(key) ==> final(m)@[key] == old(m)@[key],
+        merges_wf(old(m)@) ==> merges_wf(final(m)@),
+        final(m)@.len() <= old(m)@.len(),
+{ unimplemented!() }
+/// `m.iter().sorted_by_key(|&(_, id)| id)` projected to the keys: the key with id k at position k
+#[verifier::external_body]
+fn vt_keys_sorted_by_id(m: &MergeOps) -> (r: Vec<&Vec<u8>>)
+    requires merges_wf(m@),
+    ensures r.len() == m@.len(),
+        forall|k: int| 0 <= k < r.len() ==> m@.contains_key(*#[trigger] r[k]) && m@[*r[k]] == k,
+{ unimplemented!() }
+
+impl<Config, State> BaseTokenizer<Config, State> {
+    pub closed spec fn st(&self) -> State { self.state }
+    pub closed spec fn sp(&self) -> Vocab<String> { self.special_vocab }
+    /// Assumed contract of `new_base_tokenizer` / `Vocab::build` (itertools unique/enumerate, regex escape): the state is
+    /// stored as given; the special vocabulary gets the ids special_offset, special_offset+1, ... (contiguous), the two
+    /// maps are mutually inverse.
+    #[verifier::external_body]
+    fn new_base_tokenizer(special_offset: u32, special_config: SpecialConfig, config: Config, state: State) -> (r: VtResult<Self>)
+        ensures r.is_ok() ==> ({
+            let t = r.unwrap();
+            &&& t.st() == state
+            &&& t.sp().inverse()
+            &&& special_offset + t.sp().fwd().len() <= u32::MAX
+            &&& forall|id: u32| #[trigger] t.sp().rev().contains_key(id) <==> special_offset <= id < special_offset + t.sp().fwd().len()
+        }),
+    { unimplemented!() }
+}
+
+impl BPETokenizer {
+//@unit src/tokenization.rs fn new impl=^impl\sBPETokenizer$
+//@rule R4
+//@rule R6_bpe_new
+//@rule R16(vt_keys_sorted_by_id ;; vt_keys)
+    pub fn new(config: BPETokenizerConfig, special_config: SpecialConfig) -> (res: VtResult<Self>)
+        requires obeys_key_model::<Vec<u8>>(),
+        ensures
+            // the representation invariant of the id maps, except the configuration precondition
+            // "no special spelling is also a regular token" (cannot be established by the constructor)
+            res.is_ok() ==> res.unwrap().wf_built(),
+    {
+        let mut merge_ops = vt_load_merges(&config.merge_file)?;
+        if let Some(limit) = config.max_vocab_size {
+            // to limit vocab size we filter out all merges with an id higher than the limit
+            let limit = limit
+                .saturating_sub(special_config.tokens.len())
+                .saturating_sub(256) as u32;
+            vt_retain_below(&mut merge_ops, limit);
+        }
+        let mut reverse_merge_ops: Vec<Vec<u8>> = Vec::new();
+        for b in 0..256
+            invariant
+                reverse_merge_ops.len() == b,
+                forall|k: int| 0 <= k < b ==> (#[trigger] reverse_merge_ops[k])@ == seq![k as u8],
+        {
+            reverse_merge_ops.push(vec![b as u8]);
+        }
+        let ghost nm = merge_ops@.len();
+        let ghost mo = merge_ops@;
+        let ghost mut done: int = 0;
+        let vt_keys = vt_keys_sorted_by_id(&merge_ops);
+        let ghost keys = vt_keys@;
+        for bytes in it: vt_keys
+            invariant
+                merges_wf(mo), mo == merge_ops@, nm == mo.len(), keys.len() == nm,
+                done == it.index@, 0 <= done <= nm, it.seq() == keys,
+                forall|k: int| 0 <= k < nm ==> mo.contains_key(*#[trigger] keys[k]) && mo[*keys[k]] == k,
+                reverse_merge_ops.len() == 256 + done,
+                forall|k: int| 0 <= k < 256 ==> (#[trigger] reverse_merge_ops[k])@ == seq![k as u8],
+                forall|k: int| 0 <= k < done ==> (#[trigger] reverse_merge_ops[256 + k])@ == (*keys[k])@,
+        {
+            reverse_merge_ops.push(bytes.to_vec());
+            proof { done = done + 1; }
+        }
+        proof {
+            // every table position >= 256 holds the key with that merge id, and vice versa
+            assert forall|key: Vec<u8>| #[trigger] mo.contains_key(key) implies
+                256 + mo[key] < reverse_merge_ops.len() && reverse_merge_ops[256 + mo[key]]@ == key@ by {
+                let id = mo[key] as int;
+                // position 256 + id was filled from the key with id `id`, which is `key` (ids are injective)
+                assert(mo.contains_key(*keys[id]) && mo[*keys[id]] == id);
+                assert(reverse_merge_ops[256 + id]@ == (*keys[id])@);
+            }
+        }
+        Self::new_base_tokenizer(
+            reverse_merge_ops.len() as u32,
+            special_config,
+            config,
+            (
+                merge_ops,
+                reverse_merge_ops,
+                Regex::new(SPLIT_WORD_WHITESPACE_PATTERN)?,
+            ),
+        )
     }
 //@end
 }
